@@ -36,6 +36,7 @@ multiset (shared with C04). Fourth round: C02.4 the feasibility memo consulted
 by a placement walk is created by that walk, on every path (never handed in
 across partitions); C02.6 also covers the deletion path (shared with C05.2).
 Sweep: C02.1 / C02.6 the accumulation over children and the placement walk over the queue are never cut short (no break or return inside the loop).
+Sixth round: C02.1 Server.remove gives capacity back additively (found by role); the fold of the children traits is judged on the attribute or on a local stored afterwards; C02.5 the cursor of each placement strategy indexes the sequence whose length bounds and wraps it, and the walk is left only on the wrap comparison (also through a named boolean).
 Does NOT decide the liveness statement as a whole (quiescent states reached
 by histories) nor the strategies' index arithmetic.
 """
